@@ -206,6 +206,10 @@ func (d *Driver) Enabled(e *mc.Env, s *mc.State) []mc.Op {
 		add(opData{kind: "issue", by: 0}, "issue(A)")
 		add(opData{kind: "issue", by: 1}, "issue(B)")
 	}
+	if !d.V.Boundary && len(m.classes) > 0 {
+		// the chain restarts from its own exported genesis: ids handed out afterwards must still be new
+		add(opData{kind: "restart"}, "restart-from-genesis")
+	}
 	for ci, cl := range m.classes {
 		cn := fmt.Sprintf("c%d", ci+1)
 		o := cl.owner
@@ -351,6 +355,19 @@ func role(cl *class, by int) string {
 func (d *Driver) Apply(e *mc.Env, s *mc.State, op mc.Op) []mc.Finding {
 	od := op.Data.(opData)
 	m := s.Model.(*model)
+	if od.kind == "restart" {
+		if err := mc.ReimportModule(e, s.Ctx, "mt"); err != nil {
+			m.broken = true
+			return []mc.Finding{mc.F("C15/harness/genesis-reimport-failed", "%v", err)}
+		}
+		s.MarkDirty()
+		s.Last = "ok"
+		fs := d.compare(e, s, m, nil, "ok")
+		if len(fs) > 0 {
+			m.broken = true
+		}
+		return fs
+	}
 	var cl *class
 	var tk *token
 	if od.kind != "issue" {
